@@ -19,7 +19,12 @@
   any Go panic, any call slower than 2 s and any allocation out of proportion.
   Whole API (Proofs.NoPanic*): `Inv` is an invariant of the conversation (SMP context consistent, an
   encrypted conversation has version, DH key pair and both long-term keys, the AKE context holds what
-  its state relies on); `inv_init`: it holds for every freshly created conversation (any policies,
+  its state relies on, and — needed since rejected and ignored messages take back the version they had
+  committed an uncommitted conversation to — a key exchange under way means that a version is committed:
+  `akeVer`; without it `receive_preserves_inv` fails for the repaired code: version none + AWAITING_SIG +
+  a valid Signature message + the random source failing in `akeHasFinished` would end encrypted without a
+  version; that state is not reachable, only a message that is not rejected starts an exchange:
+  `processAKE_none_rejected`); `inv_init`: it holds for every freshly created conversation (any policies,
   version preset or not, any key list incl. empty). `receive_no_panic` / `receive_preserves_inv` and the
   same pair for Send, End, StartAuthenticate, ProvideAuthenticationSecret, AbortAuthentication,
   UseExtraSymmetricKey: from `Inv` no call reaches a panic site of the model, for every argument, every
@@ -122,5 +127,9 @@ theorem startAuthenticate_question_nul : type_of% @Otr.startAuthenticate_questio
 
 /-- both guards of StartAuthenticate at once -/
 theorem startAuthenticate_bad_question : type_of% @Otr.startAuthenticate_bad_question := @Otr.startAuthenticate_bad_question
+
+/-- no exchange is started by a rejected message: from the authentication state `none`, an error next to the
+    messages to send means nothing to send and the state still `none` (what keeps the field `akeVer` of `Inv`) -/
+theorem processAKE_none_rejected : type_of% @Otr.processAKE_none_rejected := @Otr.processAKE_none_rejected
 
 end Otr.C13
